@@ -1,6 +1,8 @@
 ENGINES = [
  {'name': 'E1-symsql', 'path': 'engine/symsql/', 'serves_properties': ['C25'],
   'kind_free_text': 'parser for the SQL text pony emits + denotational semantics over a symbolic database in z3 (per-dialect deltas), compared with a Python-semantics oracle'},
+ {'name': 'E2-expreq', 'path': 'engine/expreq.py', 'serves_properties': ['C03', 'C04'],
+  'kind_free_text': 'z3 encoding of Python expression semantics; decides whether two expression trees (source vs decompiled / regenerated) can evaluate differently'},
  {'name': 'E3-crosshair', 'path': 'engine/ch.py', 'serves_properties': ['C08'],
   'kind_free_text': 'CrossHair (z3-backed symbolic execution of the real Python functions) with reachability twins and untraced replay'},
 ]
@@ -8,6 +10,12 @@ NOTES = ('Solver-based checking of the real code. Every check imports pony from 
          'discharged or matched a listed known finding; exit 1 + VIOLATION = reproduced counterexample; exit 2 = harness error. '
          'Inconclusive solver results are printed (INCONCLUSIVE) and counted in evidence, never counted as discharged; VERIF_STRICT=1 makes them exit 2.')
 CLAIMS = {
+ 'C03': dict(engine='E2-expreq', level='translation_validation', technique='z3 equivalence query (ExprEq: Python truthiness/value semantics over Int/uninterpreted functions) between the source AST and the tree the real Decompiler reconstructs from CPython bytecode, per enumerated expression; models replayed with eval',
+   text='For every enumerated expression (bounded grammar, depth<=3, 4 names) placed as generator condition, generator element, lambda body, and for multi-clause generators, the running CPython compiles it, the real pony.orm.decompiling.Decompiler reconstructs an AST, and z3 decides whether ANY assignment to the free names makes the reconstructed tree differ from the source tree (truthiness for conditions, value for elements/lambda bodies). A decompiler exception is the allowed rejection.',
+   note='Trusted: engine/expreq.py encoding of Python expression semantics (and/or return operands, chained comparisons single-evaluation, uninterpreted attribute/call/subscript), z3, CPython eval for replay. Outside: other CPython versions, depth > bound, await/walrus/starred calls.'),
+ 'C04': dict(engine='E2-expreq', level='translation_validation', technique='z3 equivalence query (ExprEq) between each external expression and the re-parsed source the real PythonTranslator regenerates, plus a concrete tie through the real extractor pipeline on the solver witness',
+   text='For every enumerated external expression (all operator precedence levels, conditional expressions, attribute/call/subscript chains, tuples, f-strings with conversions/specs/braces; depth<=3) the real ast2src regenerates source, CPython re-parses it and z3 decides whether the two trees can evaluate differently for ANY caller-scope values; integer-valued expressions are also pushed through the real query pipeline (decompiler, PreTranslator, create_extractors, extract_vars) and the bound SQL parameter must equal eval(e).',
+   note='Trusted: engine/expreq.py, z3, CPython eval. Outside: float repr in postConstant, names shadowing builtins, depth > bound.'),
  'C25': dict(engine='E1-symsql', level='translation_validation', technique='z3 linear integer arithmetic over the parsed SQL text emitted by the real translator+builder per dialect; string abstracted as a window of symbolic length; known-finding regions excluded by assumption and re-queried',
    text='For each (dialect, start kind, stop kind) / (dialect, index kind) the real StringMixin.__getitem__ and the dialect builder emit SQL text; the text is parsed and evaluated symbolically; z3 proves the SQL substring window equals the Python slice window for ALL string lengths and ALL column-valued bounds (constants/parameters enumerated in [-K, K] and None). Counterexamples are replayed on real SQLite; other dialects are model-only.',
    note='Trusted: sqlparse/sqlsem (SQLite substr model compared with the real engine on [-6,6]^3 each run), the cited substr semantics of PostgreSQL/MySQL/Oracle, z3. Outside: K beyond the tier bound, step slices (rejected by pony), collations.'),
@@ -30,5 +38,5 @@ NOT_APPLICABLE = {
  'C32': 'detached objects read-only: enumeration of operations x object statuses, no value-dependent decision; ' + _HEAP,
  'C33': 'hooks once per change: call counting over flush rounds driven by arbitrary user hook bodies; ' + _HEAP,
 }
-for _p in ['C01','C02','C03','C04','C05','C06','C07','C13','C17','C18','C19','C20','C21','C22','C24','C26','C27','C28','C29','C30','C31','C34','C35','C36']:
+for _p in ['C01','C02','C05','C06','C07','C13','C17','C18','C19','C20','C21','C22','C24','C26','C27','C28','C29','C30','C31','C34','C35','C36']:
     NOT_APPLICABLE.setdefault(_p, _TODO)
